@@ -111,8 +111,13 @@ def after_io_fault(world, ctx):
     world.evals += 1
     inj = getattr(world.disk, "last_injected", None)
     states = admissible_after(world, ctx)
-    if k in READS or k in ("reopen", "close"):
+    if k in READS or k == "close":
         states = [world.model]
+    elif k == "reopen":
+        # a reopen in a truncating mode may fail before or after truncating
+        states = [ctx["pre_model"]]
+        if not world.model.same_state(ctx["pre_model"]):
+            states.append(world.model)
     site = "step %d (%s on %s, %s-effect %s)" % (
         f.step, f.fired[0], f.fired[1], f.mode, f.err)
     # (a) the error reaches the caller
@@ -153,6 +158,9 @@ def after_io_fault(world, ctx):
     if out.kind == "ret" and k not in READS:
         states = [world.model]
     # (c) continue under the admissible-state-set model
+    if k == "reopen" and out.kind == "exc":
+        s = match_state(actual, states)
+        states = [s]
     if len(states) == 1:
         world.model = states[0]
         world.admissible = None
@@ -163,6 +171,8 @@ def after_io_fault(world, ctx):
             world.disk.armed = {}
             o2 = world.execute(i, {"op": "reopen", "how": "abandon"})
             world.disk.end_op()
+            if world.mode in ("w", "w+"):
+                world.model.points = []  # that boot truncates, as it should
             if o2.kind != "ret":
                 world.fail(owners, "reopen-after-ioerror",
                            "cannot reopen after failed %s: %r"
